@@ -283,6 +283,86 @@ Proof.
     unfold rget. simpl. unfold with_req. rewrite lookupn_setn. rewrite Nat.eqb_refl. reflexivity.
 Qed.
 
+(* ---------- progress of the requesters that reported a failure ---------- *)
+
+Lemma rget_set : forall s r x r' (s' : vstate),
+  req s' = with_req s r x -> rget r' s' = if Nat.eqb r' r then x else rget r' s.
+Proof.
+  intros s r x r' s' H. unfold rget. rewrite H. unfold with_req. rewrite lookupn_setn.
+  destruct (Nat.eqb r' r); reflexivity.
+Qed.
+
+(* whoever reports a failed item while nothing else is left WAITS (never fails on the spot);
+   if something is left it goes on at once *)
+Lemma report_waits : forall s r b s',
+  step s (Invalidate r b) = Some s' ->
+  (cur s' = [] -> b = true /\ rget r s' = RBlocked /\ ready s' = false) /\
+  (cur s' <> [] -> b = false /\ rget r s' = RIdle).
+Proof.
+  intros s r b s' H. simpl in H. destruct (rget r s) as [|k it|]; try discriminate.
+  match type of H with
+  | (if Bool.eqb b (is_empty ?c) then _ else _) = _ => destruct (is_empty c) eqn:Ee; destruct b; simpl in H; try discriminate
+  end; injection H as <-; simpl; split; intros Hc;
+  try (rewrite Hc in Ee; discriminate);
+  try (apply is_empty_nil in Ee; congruence);
+  (split; [reflexivity|]); try split; try reflexivity;
+  unfold rget; simpl; unfold with_req; rewrite lookupn_setn, Nat.eqb_refl; reflexivity.
+Qed.
+
+(* a blocked requester stays blocked, whatever the others and the authenticator do ... *)
+Lemma blocked_stays : forall s r l s',
+  rget r s = RBlocked -> step s l = Some s' -> (forall o, l <> Wake r o) -> rget r s' = RBlocked.
+Proof.
+  intros s r l s' Hb H Hne.
+  assert (Hother : forall r0 x (s0 : vstate), rget r0 s <> RBlocked -> req s0 = with_req s r0 x -> rget r s0 = RBlocked).
+  { intros r0 x s0 Hr0 Hreq. rewrite (rget_set s r0 x r s0 Hreq).
+    destruct (Nat.eqb r r0) eqn:E; [apply Nat.eqb_eq in E; subst; congruence|exact Hb]. }
+  destruct l as [r0 k id|r0|r0|r0 blocked|r0 o| |src]; simpl in H.
+  - destruct (rget r0 s) eqn:Er; try discriminate. destruct (lookupn k (cur s)); try discriminate.
+    match type of H with (if ?c then _ else _) = _ => destruct c end; [|discriminate].
+    injection H as <-. eapply Hother; [rewrite Er; discriminate|reflexivity].
+  - destruct (rget r0 s); try discriminate.
+    match type of H with (if ?c then _ else _) = _ => destruct c end; [|discriminate]. injection H as <-. exact Hb.
+  - destruct (rget r0 s) eqn:Er; try discriminate. injection H as <-.
+    eapply Hother; [rewrite Er; discriminate|reflexivity].
+  - destruct (rget r0 s) eqn:Er; try discriminate.
+    match type of H with (if ?c then _ else _) = _ => destruct c end; [|discriminate].
+    injection H as <-. eapply Hother; [rewrite Er; discriminate|reflexivity].
+  - destruct (Nat.eq_dec r0 r) as [->|Hr]; [exfalso; apply (Hne o); reflexivity|].
+    destruct (rget r0 s) eqn:Er; try discriminate.
+    match type of H with (if ?c then _ else _) = _ => destruct c end; [|discriminate].
+    injection H as <-. unfold rget; simpl; unfold with_req; rewrite lookupn_setn.
+    destruct (Nat.eqb r r0) eqn:E; [apply Nat.eqb_eq in E; congruence|exact Hb].
+  - match type of H with (if ?c then _ else _) = _ => destruct c end; [|discriminate]. injection H as <-. exact Hb.
+  - destruct (busy s); [|discriminate].
+    destruct (update_converted src (cur s) (inv s) (nextid s)). injection H as <-. exact Hb.
+Qed.
+
+(* ... and once the vault is ready and non-empty it CAN resume, it can ONLY resume (no LoginError,
+   no further waiting), and is then free to select the fresh item *)
+Lemma blocked_resumes : forall s r,
+  rget r s = RBlocked -> ready s = true -> cur s <> [] ->
+  (exists s', step s (Wake r WResumed) = Some s' /\ rget r s' = RIdle /\ cur s' = cur s /\ ready s' = true) /\
+  (forall o s', step s (Wake r o) = Some s' -> o = WResumed).
+Proof.
+  intros s r Hb Hr Hc. split.
+  - simpl. rewrite Hb, Hr. destruct (cur s) as [|x c] eqn:Ec; [congruence|]. simpl.
+    eexists. split; [reflexivity|]. simpl. split; [|split; reflexivity].
+    unfold rget. simpl. unfold with_req. rewrite lookupn_setn, Nat.eqb_refl. reflexivity.
+  - intros o s' H. simpl in H. rewrite Hb, Hr in H. destruct (cur s) as [|x c]; [congruence|]. simpl in H.
+    destruct o; try discriminate. reflexivity.
+Qed.
+
+Lemma blocked_progress : forall s r,
+  rget r s = RBlocked ->
+  (forall l s', step s l = Some s' -> (forall o, l <> Wake r o) -> rget r s' = RBlocked) /\
+  (ready s = true -> cur s <> [] ->
+     (exists s', step s (Wake r WResumed) = Some s' /\ rget r s' = RIdle /\ cur s' = cur s /\ ready s' = true) /\
+     (forall o s', step s (Wake r o) = Some s' -> o = WResumed)).
+Proof.
+  intros s r Hb. split; [intros l s'; apply blocked_stays; exact Hb|intros; apply blocked_resumes; assumption].
+Qed.
+
 (* credentials equal to one of the (at most 3) remembered invalid ones of their key are never current *)
 Lemma no_reuse_within_history : forall src tr s k it,
   run (init src) tr = Some s -> lookupn k (cur s) = Some it ->
